@@ -168,11 +168,12 @@ impl Oracle {
     }
 }
 
-/// SP: large sparse ADFs - a long decided backbone (chains from constants) and a ring of 7 open statements placed at the
+/// SP: large sparse ADFs - a long decided backbone (chains from constants) and a ring of 7 / 6 / 5 open statements placed at the
 /// highest positions, whose conditions also mention decided statements. Sizes cross 64 and 255.
 pub fn sparse(idx: u64) -> LargeAdf {
     let n = [70usize, 130, 270][(idx % 3) as usize];
-    let open = 7usize;
+    // fewer open statements in the larger members (the library's enumeration cost grows with both)
+    let open = [7usize, 6, 5][(idx % 3) as usize];
     let back = n - open;
     let pad = |i: usize| format!("t{:03}", i);
     // every second instance numbers the statements downwards, so that lexicographic sorting reverses the order
@@ -191,23 +192,31 @@ pub fn sparse(idx: u64) -> LargeAdf {
             },
         });
     }
-    // operators of the open ring: spread over all 10^7 combinations (small indices must not mean constant conditions)
-    let ring_idx = crate::report::hash64(&(idx / 6).to_le_bytes()) % 10_000_000;
-    let mut ri = ring_idx;
+    // values of the backbone (every statement there depends on its two predecessors only)
+    let mut val: Vec<bool> = vec![];
+    for c in &conds {
+        let v = c.eval_with(&|x| val[x]);
+        val.push(v);
+    }
+    // operators of the open ring: spread over all combinations (small indices must not mean constant conditions); only
+    // the first ring statement may have a constant operator, so that most members keep an open part and some are
+    // decided step by step
+    let mut ri = crate::report::hash64(&(idx / 6).to_le_bytes());
     for j in 0..open {
-        let i = back + j;
-        let c = ring_cond((ri % RING_OPS as u64) as usize, j, open);
+        let op = if j == 0 { (ri % RING_OPS as u64) as usize } else { 2 + (ri % (RING_OPS as u64 - 2)) as usize };
         ri /= RING_OPS as u64;
-        // shift the ring's atoms to the high positions and tie every condition to two decided statements
+        let c = ring_cond(op, j, open);
+        // shift the ring's atoms to the high positions and tie every condition to two decided statements in a way that
+        // is neutral under their values (so the open part keeps the semantics of the ring)
         let c = shift_atoms(&c, back);
-        let d1 = Fm::Atom((j * 9 + 3) % back);
-        let d2 = Fm::Atom((j * 5 + 40) % back);
+        let (p1, p2) = ((j * 9 + 3) % back, (j * 5 + 40) % back);
+        let (d1, d2) = (Fm::Atom(p1), Fm::Atom(p2));
+        let t1 = if val[p1] { Fm::bin(0, c, d1) } else { Fm::bin(1, c, d1) };
         conds.push(match j % 3 {
-            0 => Fm::bin(0, c, Fm::bin(1, d1, Fm::not(d2))),
-            1 => Fm::bin(1, c, Fm::bin(0, d1, d2)),
-            _ => Fm::bin(4, c, Fm::bin(0, d1.clone(), Fm::not(d1))),
+            0 => if val[p2] { Fm::bin(3, t1, d2) } else { Fm::bin(4, t1, d2) },
+            1 => if val[p2] { Fm::bin(2, d2, t1) } else { Fm::bin(1, d2, t1) },
+            _ => Fm::bin(4, t1, Fm::bin(0, d2.clone(), Fm::not(d2))),
         });
-        let _ = i;
     }
     LargeAdf { written: labels.clone(), labels, conds, shape: "sparse" }
 }
